@@ -17,7 +17,7 @@ use sophia_api::ns::{rdf, xsd};
 use sophia_api::quad::{QBorrowTerm, Quad, Spog};
 use sophia_api::term::{BnodeId, LanguageTag, Term, TermKind, VarName};
 use sophia_api::triple::{TBorrowTerm, Triple};
-use sophia_iri::{Iri, IriRef};
+use sophia_iri::IriRef;
 
 impl Term for Trusted<BlankNode<'_>> {
     type BorrowTerm<'x>
@@ -132,7 +132,7 @@ fn datatype(l: Literal) -> IriRef<MownStr> {
         Simple { .. } => xsd::string.iriref(),
         LanguageTaggedString { .. } => rdf::langString.iriref(),
         Typed { datatype, .. } => {
-            debug_assert!(Iri::new(datatype.iri).is_ok());
+            debug_assert!(IriRef::new(datatype.iri).is_ok());
             IriRef::new_unchecked(datatype.iri.into())
         }
     };
